@@ -14,7 +14,10 @@ import (
 var stepDeadline = 5 * time.Second
 
 // guarded runs f with panic recovery and a deadline; sets obs["panic"] / obs["hang"].
-func guarded(obs J, f func()) (hung bool) {
+func guarded(obs J, f func()) (hung bool) { return guardedFor(obs, stepDeadline, f) }
+
+// guardedFor: the same with an explicit deadline (cases that run several real clients for a while)
+func guardedFor(obs J, limit time.Duration, f func()) (hung bool) {
 	done := make(chan struct{})
 	go func() {
 		defer close(done)
@@ -32,7 +35,7 @@ func guarded(obs J, f func()) (hung bool) {
 	select {
 	case <-done:
 		return false
-	case <-time.After(stepDeadline):
+	case <-time.After(limit):
 		obs["hang"] = true
 		return true
 	}
